@@ -19,31 +19,74 @@ theorem orEvaluable_of_bits {σ : State} {c₁ c₂ : Expr} (h₁ : GuardBit σ 
 section
 variable {tb tb' : List (Nat × BTR)} {manual : List ManualEdge}
 
+/-- the disjunction of two bits is a bit -/
+theorem bit_or {σ : State} {l r : Expr} (h₁ : GuardBit σ l) (h₂ : GuardBit σ r) : GuardBit σ (.bin .or l r) := by
+  obtain ⟨e₁, hs1, hb1, a, ha, hab, hav⟩ := h₁
+  obtain ⟨e₂, hs2, hb2, b, hb, hbb, hbv⟩ := h₂
+  have hsym : σ.symbolize (.bin .or l r) = .ok (.bin .or e₁ e₂) := by
+    show (σ.symbolize l >>= fun l' => σ.symbolize r >>= fun r' => Expr.mkBin .or l' r') = _
+    rw [hs1]
+    show (σ.symbolize r >>= fun r' => Expr.mkBin .or e₁ r') = _
+    rw [hs2]
+    show Expr.mkBin .or e₁ e₂ = _
+    simp [Expr.mkBin, hb1, hb2]
+  refine ⟨.bin .or e₁ e₂, hsym, by simp [Expr.bits, BinOp.isCmp, hb1], Const.new (a.val ||| b.val) a.bits, ?_, hab, ?_⟩
+  · show (e₁.eval >>= fun x => e₂.eval >>= fun y => BinOp.apply .or x y) = _
+    rw [ha]
+    show (e₂.eval >>= fun y => BinOp.apply .or a y) = _
+    rw [hb]
+    show Const.or a b = _
+    simp [Const.or, hab, hbb]
+  · show (a.val ||| b.val) % 2 ^ a.bits ≤ 1
+    rw [hab]
+    have := Nat.mod_lt (a.val ||| b.val) (show 0 < 2 ^ 1 by decide)
+    omega
+
+/-- a disjunction of bits is a bit, and it is enabled exactly when one of its guards is -/
+theorem orTree_sem {σ : State} {R : Expr → Prop} (hR : ∀ c, R c → GuardBit σ c) {g : Expr} {ls : List Expr}
+    (h : OrTree R g ls) :
+    GuardBit σ g ∧ (∀ c ∈ ls, R c) ∧ (guardHolds σ (some g) ↔ ∃ c ∈ ls, guardHolds σ (some c)) := by
+  induction h with
+  | @leaf c hc => exact ⟨hR c hc, by simpa using hc, by simp⟩
+  | @node l r ls rs _ _ ihl ihr =>
+    obtain ⟨bl, rl, sl⟩ := ihl
+    obtain ⟨br, rr, sr⟩ := ihr
+    refine ⟨bit_or bl br, ?_, ?_⟩
+    · intro c hc
+      rcases List.mem_append.mp hc with h | h
+      · exact rl c h
+      · exact rr c h
+    · rw [guardHolds_or_iff (orEvaluable_of_bits bl br), sl, sr]
+      constructor
+      · rintro (⟨c, hc, hg⟩ | ⟨c, hc, hg⟩)
+        · exact ⟨c, List.mem_append_left _ hc, hg⟩
+        · exact ⟨c, List.mem_append_right _ hc, hg⟩
+      · rintro ⟨c, hc, hg⟩
+        rcases List.mem_append.mp hc with h | h
+        · exact Or.inl ⟨c, h, hg⟩
+        · exact Or.inr ⟨c, h, hg⟩
+
 /-- in a typed state the two tables enable the same transfers -/
 theorem req_equiv (hM : MergedOf tb tb' manual) {σ : State} (hT : GuardsTyped tb manual σ) (a b : Nat) :
     (∃ c, (a, b, c) ∈ reqList tb manual ∧ guardHolds σ c) ↔ (∃ g, (a, b, g) ∈ reqList tb' manual ∧ guardHolds σ g) := by
+  have hR : ∀ c, (a, b, some c) ∈ reqList tb manual → GuardBit σ c := fun c hc => hT _ hc c rfl
   constructor
   · rintro ⟨c, hc, hg⟩
-    rcases hM.forth _ hc with h | h | ⟨c₁, c', hc1, hc', hor⟩
-    · exact ⟨c, h, hg⟩
+    rcases hM.forth _ hc with h | ⟨c₀, g, ls, hc0, hgm, ht, hmem⟩
     · exact ⟨none, h, trivial⟩
-    · simp only at hc1 hc' hor
-      subst hc1
-      have b1 := hT _ hc c₁ rfl
-      have b2 := hT _ hc' c' rfl
-      rcases hor with h | h
-      · exact ⟨_, h, (guardHolds_or_iff (orEvaluable_of_bits b1 b2)).mpr (Or.inl hg)⟩
-      · exact ⟨_, h, (guardHolds_or_iff (orEvaluable_of_bits b2 b1)).mpr (Or.inr hg)⟩
+    · simp only at hc0 hgm ht
+      subst hc0
+      exact ⟨some g, hgm, ((orTree_sem hR ht).2.2).mpr ⟨c₀, hmem, hg⟩⟩
   · rintro ⟨g, hgm, hg⟩
-    rcases hM.back _ hgm with h | ⟨c₁, c₂, hgo, h1, h2⟩
-    · exact ⟨g, h, hg⟩
-    · simp only at hgo h1 h2
-      subst hgo
-      have b1 := hT _ h1 c₁ rfl
-      have b2 := hT _ h2 c₂ rfl
-      rcases (guardHolds_or_iff (orEvaluable_of_bits b1 b2)).mp hg with h | h
-      · exact ⟨_, h1, h⟩
-      · exact ⟨_, h2, h⟩
+    obtain ⟨hn, hs⟩ := hM.back _ hgm
+    cases g with
+    | none => exact ⟨none, hn rfl, trivial⟩
+    | some g =>
+      obtain ⟨ls, ht⟩ := hs g rfl
+      simp only at ht
+      obtain ⟨_, hall, hiff⟩ := orTree_sem hR ht
+      obtain ⟨c, hc, hgc⟩ := hiff.mp hg
+      exact ⟨some c, hall c hc, hgc⟩
 
 theorem rstep_transfer {tbA tbB : List (Nat × BTR)} (hG : ∀ a, graphAt tbB a = graphAt tbA a)
     (hreq : ∀ {σ : State} (a b : Nat), GuardsTyped tb manual σ →
@@ -103,15 +146,6 @@ theorem assemble_refines_merged {tb tb' : List (Nat × BTR)} {manual : List Manu
     obtain ⟨y, hry, hy⟩ := hbwd x z (hval x hv) hr
     exact ⟨y, rrun_back hG hM hT hry, hy⟩
 
-/-- normalising the successors does not touch the instruction graphs -/
-theorem graphAt_normalize (tb : List (Nat × BTR)) (a : Nat) : graphAt (normalize tb) a = graphAt tb a := by
-  have : allInstrs (normalize tb) = allInstrs tb := by
-    unfold allInstrs normalize
-    induction tb with
-    | nil => rfl
-    | cons p rest ih => simp only [List.map_cons, List.flatMap_cons]; rw [ih]
-  unfold graphAt; rw [this]
-
 theorem guardBitB_iff (σ : State) (c : Expr) : guardBitB σ c = true ↔ GuardBit σ c := by
   unfold guardBitB GuardBit
   cases hs : σ.symbolize c with
@@ -136,50 +170,115 @@ theorem guardBitB_iff (σ : State) (c : Expr) : guardBitB σ c = true ↔ GuardB
   | err x => simp only [Bool.false_eq_true, false_iff]; rintro ⟨e', h0, _⟩; cases h0
   | panic => simp only [Bool.false_eq_true, false_iff]; rintro ⟨e', h0, _⟩; cases h0
 
+/-- tables with the same instruction lists have the same instruction graphs -/
+theorem graphAt_of_instrs {tb tb' : List (Nat × BTR)} (h : tb'.map (·.2.instrs) = tb.map (·.2.instrs)) (a : Nat) :
+    graphAt tb' a = graphAt tb a := by
+  have : ∀ l : List (Nat × BTR), allInstrs l = (l.map (·.2.instrs)).flatten := by
+    intro l; unfold allInstrs; induction l with
+    | nil => rfl
+    | cons p rest ih => simp only [List.flatMap_cons, List.map_cons, List.flatten_cons]; rw [ih]
+  unfold graphAt; rw [this tb', this tb, h]
+
+theorem mem_pairGuards {r : List (Nat × Nat × Option Expr)} {a b : Nat} {c : Expr} :
+    c ∈ pairGuards r a b ↔ (a, b, some c) ∈ r := by
+  unfold pairGuards
+  simp only [List.mem_filterMap, List.mem_filter, Bool.and_eq_true, beq_iff_eq]
+  constructor
+  · rintro ⟨q, ⟨hq, h1, h2⟩, h3⟩
+    obtain ⟨x, y, z⟩ := q
+    simp only at h1 h2 h3
+    subst h1; subst h2; subst h3; exact hq
+  · intro h; exact ⟨(a, b, some c), ⟨h, rfl, rfl⟩, rfl⟩
+
+theorem orLeaves_sound {R : List Expr} {g : Expr} {ls : List Expr} (h : orLeaves R g = some ls) :
+    OrTree (fun c => c ∈ R) g ls := by
+  induction g generalizing ls with
+  | bin op l r ihl ihr =>
+    unfold orLeaves at h
+    split at h
+    · rename_i hc
+      simp only [Option.some.injEq] at h; subst h
+      exact OrTree.leaf (by simpa using hc)
+    · cases op <;> simp only at h <;> try (cases h)
+      cases hl : orLeaves R l with
+      | none => rw [hl] at h; simp at h
+      | some a =>
+        cases hr : orLeaves R r with
+        | none => rw [hl, hr] at h; simp at h
+        | some b =>
+          rw [hl, hr] at h
+          simp only [Option.some.injEq] at h; subst h
+          exact OrTree.node (ihl hl) (ihr hr)
+  | scalar x =>
+    unfold orLeaves at h
+    split at h
+    · rename_i hc; simp only [Option.some.injEq] at h; subst h; exact OrTree.leaf (by simpa using hc)
+    · cases h
+  | const x =>
+    unfold orLeaves at h
+    split at h
+    · rename_i hc; simp only [Option.some.injEq] at h; subst h; exact OrTree.leaf (by simpa using hc)
+    · cases h
+  | ext o n e _ =>
+    unfold orLeaves at h
+    split at h
+    · rename_i hc; simp only [Option.some.injEq] at h; subst h; exact OrTree.leaf (by simpa using hc)
+    · cases h
+  | ite c t e _ _ _ =>
+    unfold orLeaves at h
+    split at h
+    · rename_i hc; simp only [Option.some.injEq] at h; subst h; exact OrTree.leaf (by simpa using hc)
+    · cases h
+
+theorem orTree_mono {R R' : Expr → Prop} (hRR : ∀ c, R c → R' c) {g : Expr} {ls : List Expr} (h : OrTree R g ls) :
+    OrTree R' g ls := by
+  induction h with
+  | leaf hc => exact OrTree.leaf (hRR _ hc)
+  | node _ _ ihl ihr => exact OrTree.node ihl ihr
+
 theorem mergedOfB_sound {tb tb' : List (Nat × BTR)} {manual : List ManualEdge}
     (h : mergedOfB tb tb' manual = true) : MergedOf tb tb' manual := by
   unfold mergedOfB at h
-  simp only [Bool.and_eq_true, List.all_eq_true, Bool.or_eq_true, List.contains_iff_mem] at h
+  simp only [Bool.and_eq_true, List.all_eq_true] at h
   obtain ⟨hb, hf⟩ := h
   constructor
   · intro q hq
-    rcases hb q hq with h1 | h1
+    have := hb q hq
+    constructor
+    · intro hn; rw [hn] at this; simpa using this
+    · intro g hg
+      rw [hg] at this
+      simp only at this
+      cases hl : orLeaves (pairGuards (reqList tb manual) q.1 q.2.1) g with
+      | none => rw [hl] at this; simp at this
+      | some ls => exact ⟨ls, orTree_mono (fun c hc => mem_pairGuards.mp hc) (orLeaves_sound hl)⟩
+  · intro q hq
+    have := hf q hq
+    simp only [Bool.or_eq_true, List.contains_iff_mem] at this
+    rcases this with h1 | h1
     · exact Or.inl h1
     · right
-      cases hq2 : q.2.2 with
-      | none => rw [hq2] at h1; cases h1
-      | some g =>
-        rw [hq2] at h1
-        cases g with
-        | bin op c₁ c₂ =>
-          cases op <;> first
-            | (simp only [Bool.and_eq_true, List.contains_iff_mem] at h1; exact ⟨c₁, c₂, rfl, h1.1, h1.2⟩)
-            | (cases h1)
-        | scalar _ => cases h1
-        | const _ => cases h1
-        | ext _ _ _ => cases h1
-        | ite _ _ _ => cases h1
-  · intro q hq
-    rcases hf q hq with (h1 | h1) | h1
-    · exact Or.inl h1
-    · exact Or.inr (Or.inl h1)
-    · right; right
       cases hq2 : q.2.2 with
       | none => rw [hq2] at h1; cases h1
       | some c =>
         rw [hq2] at h1
         simp only [List.any_eq_true, Bool.and_eq_true, beq_iff_eq] at h1
-        obtain ⟨q₂, hq₂, ⟨h21, h22⟩, h3⟩ := h1
-        cases hc' : q₂.2.2 with
-        | none => rw [hc'] at h3; cases h3
-        | some c' =>
-          rw [hc'] at h3
-          simp only [Bool.or_eq_true, List.contains_iff_mem] at h3
-          refine ⟨c, c', rfl, ?_, h3⟩
-          have : q₂ = (q.1, q.2.1, some c') := by
-            obtain ⟨x, y, z⟩ := q₂
-            simp only at h21 h22 hc'
-            rw [h21, h22, hc']
-          rw [← this]; exact hq₂
+        obtain ⟨q', hq', ⟨h21, h22⟩, h3⟩ := h1
+        cases hg : q'.2.2 with
+        | none => rw [hg] at h3; cases h3
+        | some g =>
+          rw [hg] at h3
+          simp only at h3
+          cases hl : orLeaves (pairGuards (reqList tb manual) q.1 q.2.1) g with
+          | none => rw [hl] at h3; cases h3
+          | some ls =>
+            rw [hl] at h3
+            simp only [List.contains_iff_mem] at h3
+            refine ⟨c, g, ls, rfl, ?_, orTree_mono (fun c hc => mem_pairGuards.mp hc) (orLeaves_sound hl), h3⟩
+            have : q' = (q.1, q.2.1, some g) := by
+              obtain ⟨x, y, z⟩ := q'
+              simp only at h21 h22 hg
+              rw [h21, h22, hg]
+            rw [← this]; exact hq'
 
 end Falcon.C06Asm
